@@ -22,6 +22,17 @@ import (
 	"strings"
 )
 
+type partialUse struct {
+	pre, post *UseRef
+}
+
+func (x *Exec) modularNote(n string) {
+	if x.modularUsed == nil {
+		x.modularUsed = map[string]bool{}
+	}
+	x.modularUsed[n] = true
+}
+
 type subRegion struct {
 	uc    *UnitContract
 	use   *UseRef
